@@ -325,7 +325,7 @@ class Outcome:
             json.dump(ev, f, indent=1, default=str)
             f.write('\n')
         for f_ in load_findings():
-            if f_['id'] in self.known_hits:
+            if f_['id'] in self.known_hits and f_.get('property') == self.prop and f_.get('status') == 'known':
                 print('KNOWN-FINDING: property=%s %s (%s; %d case(s) this run)' % (self.prop, f_['what'], f_['id'], self.known_hits[f_['id']]))
         bysig = {}
         for path, sig in self.violations:
